@@ -268,12 +268,7 @@ theorem step_sqlite_eq_dict (st : St) (o : Op) (h : okSqlite st o = true) :
   have hkey := okSqlite_key h
   have hup : upsertRow o.row st.git = if o.row ∈ st.git then st.git else st.git ++ [o.row] :=
     upsertRow_eq o.row st.git (fun r hr _ hk => hkey r hr hk)
-  have hrest : (match o with
-      | .tree s f r => treesOK st.trees (f, r) s
-      | _ => mapOK st o) = true := by
-    unfold okSqlite at h
-    simp only [Bool.and_eq_true] at h
-    exact h.2
+  have h2 := h
   cases o with
   | commit r s t tm =>
     simp only [step, hup]
@@ -300,7 +295,9 @@ theorem step_sqlite_eq_dict (st : St) (o : Op) (h : okSqlite st o = true) :
         rcases hc with hc | hc
         · exact htree _ hx (by simp [isTreeOp]) (by simp [isTreeRow]) (by simpa [Op.sha] using hc)
         · exact hkey _ hx (by simp [sameKey, Op.entry, hc.1, hc.2]))]
-    rw [treesReplace_eq s (f, r) st.trees (by simpa using hrest)]
+    unfold okSqlite at h2
+    simp only [Bool.and_eq_true] at h2
+    rw [treesReplace_eq s (f, r) st.trees h2.2]
 
 theorem run_eq_of_okSeq (b : Backend) (ok : St → Op → Bool)
     (hstep : ∀ st o, ok st o = true → step b st o = step .dict st o) :
